@@ -173,6 +173,9 @@ Op parse_op(const vh::Words& w, const std::string& raw) {
     if (w[0] == "M0" && w.size() == 1) { o.t = 'M'; o.field = "mock_c"; o.ok = true; return o; }
     // `P <word>`: a remark of the generator about the scenario (e.g. `P aligned`); echoed, not executed
     if (w[0] == "P" && w.size() == 2) { o.t = 'P'; o.field = w[1]; o.ok = true; return o; }
+    // `T`: the operations after it are executed in the TEARDOWN of the test (the real runner calls teardown also when the
+    // body was left by the C-style / exception terminator after a failure)
+    if (w[0] == "T" && w.size() == 1) { o.t = 'T'; o.field = "teardown"; o.ok = true; return o; }
     if (w[0] == "M" && w.size() == 2) {
         o.t = 'M'; o.field = "mock_scope_c"; o.a.push_back(w[1]); o.dec.resize(1);
         o.ok = check_arg('n', w[1], o.dec[0]); return o;
@@ -514,20 +517,31 @@ void exec_x() {
 
 // the body of the test: all state is global (a failing C-interface call leaves with longjmp)
 size_t g_i = 0;
-void body() {
-    for (g_i = 0; g_i < g_ops.size(); g_i++) {
+size_t g_tstart = 0;      // index of the `T` line (or the number of operations)
+size_t g_body_stop = 0;
+void run_ops(size_t from, size_t to) {
+    for (g_i = from; g_i < to; g_i++) {
         g_o = &g_ops[g_i];
-        bool have = g_o->ok && (g_o->t == 'M' || g_o->t == 'P' ||
+        bool have = g_o->ok && (g_o->t == 'M' || g_o->t == 'P' || g_o->t == 'T' ||
             (g_o->t == 'S' && (g_run == 'x' ? (void*) x_sup : (void*) c_sup)) ||
             (g_o->t == 'E' && (g_run == 'x' ? (void*) x_ec : (void*) c_ec)) ||
             (g_o->t == 'A' && (g_run == 'x' ? (void*) x_ac : (void*) c_ac)));
         if (!have) { vh::emit("> skip"); continue; }
         vh::emit("> %c %lu %s", g_run, (unsigned long) g_i, g_o->raw.c_str());
         fflush(stdout);
-        if (g_o->t == 'P') continue;
+        if (g_o->t == 'P' || g_o->t == 'T') continue;
         if (g_run == 'x') exec_x(); else exec_c();
         dump_out();
     }
+}
+void body() { g_body_stop = 0; run_ops(0, g_tstart); }
+// teardown: runs after the body, also when a failure ended the body.  A mock failure clears the mock (the call objects
+// are gone), so the chain pointers of the test are dropped: teardown starts a new chain if it wants one.
+void teardown() {
+    g_body_stop = g_i;
+    if (g_tstart >= g_ops.size()) return;
+    x_ec = 0; x_ac = 0; c_ec = 0; c_ac = 0;
+    run_ops(g_tstart, g_ops.size());
 }
 
 // the failure text: the fixture's output without progress dots and the final summary (which counts checks)
@@ -547,10 +561,11 @@ void one_run(char which) {
     {
         TestTestingFixture fixture;
         fixture.setTestFunction(body);
+        fixture.setTeardown(teardown);
         fixture.runAllTests();
         dump_out();
         vh::emit("> %c end", which);
-        obs("stopped %lu", (unsigned long) g_i);
+        obs("stopped %lu %lu", (unsigned long) g_body_stop, (unsigned long) g_i);
         obs("objects %s", vh::hex(g_objs, sizeof g_objs).c_str());     // a copier must never write into its source
         obs("verdict %lu %s", (unsigned long) fixture.getFailureCount(),
             vh::hex(failure_text(fixture.getOutput().asCharString())).c_str());
@@ -566,6 +581,8 @@ void run_case(const vh::Case& c) {
     g_ops.clear();
     g_ops.reserve(c.ops.size());
     for (size_t i = 0; i < c.ops.size(); i++) g_ops.push_back(parse_op(c.ops[i], c.raw[i]));
+    g_tstart = g_ops.size();
+    for (size_t i = 0; i < g_ops.size(); i++) if (g_ops[i].ok && g_ops[i].t == 'T') { g_tstart = i; break; }
     one_run('x');
     one_run('c');
 }
